@@ -115,6 +115,18 @@ func parserFieldLoose(t *core.Term, layer, field string) bool {
 	return false
 }
 
+func isFrameParserTerm(t *core.Term) bool {
+	switch {
+	case t.Op == "param":
+		return isFrameParser(t.Typ)
+	case t.Op == "field" && len(t.Args) == 1 && t.Args[0].Op == "recv":
+		return true
+	case t.Op == "recv":
+		return true
+	}
+	return false
+}
+
 func isFrameParser(t types.Type) bool {
 	return t != nil && isNamed(t, core.ModulePath+"/packets", "FrameParser")
 }
@@ -340,7 +352,9 @@ func isTransportEq(c *core.Term, layer string) bool {
 		return false
 	}
 	for i := 0; i < 2; i++ {
-		if isCallTo(c.Args[i], ".GetTransportLayer") && c.Args[1-i].Op == "global" && c.Args[1-i].Name == "layers."+layer {
+		// the transport-layer getter of the parser, under whatever name inlining of one-line wrappers leaves it: a call on a
+		// FrameParser compared with a layer-type constant (the constant itself says which layer is meant)
+		if x := c.Args[i]; x.Op == "call" && (strings.HasSuffix(x.Name, ".GetTransportLayer") || strings.Contains(x.Name, "(*packets.FrameParser).") && len(x.Args) >= 1 && isFrameParserTerm(x.Args[0])) && c.Args[1-i].Op == "global" && c.Args[1-i].Name == "layers."+layer {
 			return true
 		}
 	}
